@@ -87,6 +87,7 @@ theorem takeWaiting_eff (c : Ctl) (ip : String) :
 
 theorem deleteIP_eff (c : Ctl) (ip key : String) : PodEff c (deleteIP c ip key).1 [] := by
   unfold deleteIP
+  simp only []
   split
   · exact ⟨rfl, rfl, rfl, rfl, rfl, rfl, rfl, fun _ _ h => Or.inl h, fun _ _ h => h⟩
   · exact PodEff.refl c
@@ -338,9 +339,9 @@ theorem PodEff.mono {c c2 : Ctl} {ks ks' : List String} (h : PodEff c c2 ks) (hs
     refers to the pod -/
 theorem idReplays_eq (c : Ctl) (o p : Pod) :
     ∃ kx : List String, idReplays c o p = kx.map Ev.replay ∧
-      ((o.node ≠ p.node ∨ o.sa ≠ p.sa) → ∀ x ∈ c.slices, x.ns = p.ns → Refs x p.ns p.name → x.key ∈ kx) := by
+      (idChanged o p = true → ∀ x ∈ c.slices, x.ns = p.ns → Refs x p.ns p.name → x.key ∈ kx) := by
   unfold idReplays
-  by_cases h : o.node ≠ p.node ∨ o.sa ≠ p.sa
+  by_cases h : idChanged o p = true
   · rw [if_pos h]
     refine ⟨(c.slices.filter (fun sl => sl.ns = p.ns ∧ sl.eps.any (fun e => e.target = some (p.ns, p.name)))).map (·.key),
       by rw [List.map_map]; rfl, ?_⟩
@@ -366,8 +367,8 @@ theorem idReplays_eq (c : Ctl) (o p : Pod) :
       nothing: the slices that refer to it wait on (`WaitP`);
     * an update: `recomputeServiceForPod` is not reached (its early exit is finding
       `health-built-before-service-known`), and either labels, service account and node are unchanged (phase,
-      readiness, IP assignment, deletion timestamp are free), or node / service account change (then the slices of
-      the pod's namespace that refer to it are replayed: `queueEndpointEventsForPod`, whatever else changed), or no
+      readiness, IP assignment, deletion timestamp are free), or node / service account / workload name change (then
+      the slices of the pod's namespace that refer to it are replayed: `queueEndpointEventsForPod`, whatever else changed), or no
       endpoint of a slice that is not exempt refers to the pod (a pending pod that is bound to a node, relabelled, ... before the slice controller publishes
       it, or while the slices that refer to it wait for its IP) - findings
       `labels-built-before-pod-label-change`, `locality-built-before-node-change`, `identity-of-replaced-pod`
@@ -377,7 +378,7 @@ def PodGood (c : Ctl) (P : Slice → Prop) (v : Pod) : Prop :=
   | none => v.ip = "" ∨ ∀ sl ∈ c.slices, ∀ ea ∈ sl.addrPairs, ea.1.target = some (v.ns, v.name) → ea.2 = v.ip
   | some o => NoRecompute c (some o) v ∧
       (podSig o = podSig v ∨
-        ((o.node ≠ v.node ∨ o.sa ≠ v.sa) ∧ ∀ sl ∈ c.slices, ¬ P sl → Refs sl v.ns v.name → sl.ns = v.ns) ∨
+        (idChanged o v = true ∧ ∀ sl ∈ c.slices, ¬ P sl → Refs sl v.ns v.name → sl.ns = v.ns) ∨
         ∀ sl ∈ c.slices, ¬ P sl → ∀ ea ∈ sl.addrPairs, ea.1.target ≠ some (v.ns, v.name)) ∧
       (o.ip = "" → v.ip ≠ "" → ∀ sl ∈ c.slices, ∀ ea ∈ sl.addrPairs, ea.1.target = some (v.ns, v.name) → ea.2 = v.ip)
 
@@ -417,7 +418,7 @@ theorem pod_write_inv (c : Ctl) (v : Pod) (c' : Ctl) (hph : v.phase ≠ "F") (hs
         ((podEvent c1 old v kind).1, kx.map Ev.replay ++ (podEvent c1 old v kind).2 ++ []) ∧
       kind ≠ .del ∧ (∀ o, old = some o → findPod c.pods v.ns v.name = some o) ∧
       (old = none → findPod c.pods v.ns v.name = none) ∧
-      (∀ o, old = some o → (o.node ≠ v.node ∨ o.sa ≠ v.sa) →
+      (∀ o, old = some o → idChanged o v = true →
         ∀ x ∈ c.slices, x.ns = v.ns → Refs x v.ns v.name → x.key ∈ kx) := by
     unfold podEvOf
     cases hfo : findPod c.pods v.ns v.name with
